@@ -33,12 +33,40 @@ pub enum Case {
 
 pub struct P;
 
-fn check_wrap_diff(line: &str, spec: &OptSpec, prior: bool) -> Outcome {
+pub const KF2: &str = "KF-C05-2";
+
+/// Signature of KF-C05-2: optimal-fit, a hyphen-inserting custom splitter,
+/// and some in-context fragment whose penalty (the inserted hyphen) is wider
+/// than the fragment that follows it — the regime C03's statement excludes,
+/// in which optimal-fit need not return a minimum-cost arrangement, so the
+/// general path may break a text that fits while the shortcut returns it
+/// whole.
+pub fn matches_known_finding_2(text: &str, spec: &OptSpec) -> bool {
+    use textwrap::core::Fragment;
+    if !matches!(spec.algo, crate::case::Algo::Optimal(_)) || !spec.split.is_custom() {
+        return false;
+    }
+    let splitter = spec.split.splitter();
+    for par in text.split(spec.ending()) {
+        let fr = super::textlevel::fragments(par, spec, &splitter);
+        for k in 0..fr.len().saturating_sub(1) {
+            if fr[k].penalty_width() > fr[k + 1].width() {
+                return true;
+            }
+        }
+    }
+    false
+}
+
+fn check_wrap_diff(line: &str, spec: &OptSpec, prior: bool, mode: Mode) -> Outcome {
     if !spec.supported() {
         return Outcome::Skip("options not available on this build");
     }
     if line.contains(spec.ending()) {
         return Outcome::Skip("line contains the line ending");
+    }
+    if mode == Mode::Normal && matches_known_finding_2(line, spec) {
+        return Outcome::Known(KF2);
     }
     let opts = spec.options();
     let seed: Vec<Cow<'_, str>> = if prior { vec![Cow::from("prior")] } else { vec![] };
@@ -68,9 +96,12 @@ fn check_wrap_diff(line: &str, spec: &OptSpec, prior: bool) -> Outcome {
     Outcome::pass(gap || !ind.is_empty(), classes)
 }
 
-fn check_fill_diff(text: &str, spec: &OptSpec) -> Outcome {
+fn check_fill_diff(text: &str, spec: &OptSpec, mode: Mode) -> Outcome {
     if !spec.supported() {
         return Outcome::Skip("options not available on this build");
+    }
+    if mode == Mode::Normal && matches_known_finding_2(text, spec) {
+        return Outcome::Known(KF2);
     }
     let a = textwrap::fill(text, spec.options());
     let b = textwrap::fuzzing::fill_slow_path(text, spec.options());
@@ -152,8 +183,8 @@ fn check_fits(par: &str, spec0: &OptSpec, prior: bool, mode: Mode) -> Outcome {
 
 pub fn check(c: &Case, mode: Mode) -> Outcome {
     match c {
-        Case::WrapDiff { line, spec, prior } => check_wrap_diff(line, spec, *prior),
-        Case::FillDiff { text, spec } => check_fill_diff(text, spec),
+        Case::WrapDiff { line, spec, prior } => check_wrap_diff(line, spec, *prior, mode),
+        Case::FillDiff { text, spec } => check_fill_diff(text, spec, mode),
         Case::Fits { par, spec, prior } => check_fits(par, spec, *prior, mode),
     }
 }
@@ -255,7 +286,7 @@ impl Property for P {
         }
     }
     fn rule() -> String {
-        "(a) differential: line/text over the full alphabet (multi-byte heavy), all options incl. custom splitters, with/without a prior output line, width drawn from [display width, byte length + 2] in 75% of the cases; oracle = textwrap::fuzzing::wrap_single_line == wrap_single_line_slow_path and fill == fill_slow_path. (b) clean paragraph (incl. sequences with a space or a hyphen in the payload; cases matching the open known finding KF-C05-1 — a fragment boundary inside a sequence — are excluded and counted) x {first-fit, default optimal-fit} x separators x none/hyphen splitter x break_words x indents x prior line: at every width from dw(par)+dw(indent) to that + len(par)+3 the result is exactly [indent + par.trim_end_matches(' ')]. non-trivial = (a) display width < width <= byte length, or a non-empty applicable indent (fill: or a newline); (b) byte length > display width. distinct = distinct serialized cases".into()
+        "(a) differential: line/text over the full alphabet (multi-byte heavy), all options incl. custom splitters, with/without a prior output line, width drawn from [display width, byte length + 2] in 75% of the cases; oracle = textwrap::fuzzing::wrap_single_line == wrap_single_line_slow_path and fill == fill_slow_path. (b) clean paragraph (incl. sequences with a space or a hyphen in the payload; cases matching the open known finding KF-C05-1 — a fragment boundary inside a sequence — are excluded and counted; in (a) cases matching KF-C05-2 — optimal-fit with a hyphen-inserting custom splitter and an inserted hyphen wider than the fragment after it — likewise) x {first-fit, default optimal-fit} x separators x none/hyphen splitter x break_words x indents x prior line: at every width from dw(par)+dw(indent) to that + len(par)+3 the result is exactly [indent + par.trim_end_matches(' ')]. non-trivial = (a) display width < width <= byte length, or a non-empty applicable indent (fill: or a newline); (b) byte length > display width. distinct = distinct serialized cases".into()
     }
     fn assumptions() -> Vec<String> {
         vec!["needs the upstream cfg(fuzzing) entry points (no source hook added)".into()]
